@@ -112,6 +112,7 @@ func init() {
 			{Name: "random", TShards: 2, Run: c13Random},
 			{Name: "bytes", Run: c13Bytes},
 			{Name: "readers", Race: true, QShards: 2, TShards: 4, Run: c13Readers},
+			{Name: "parallel", Race: true, Run: sequtilParallel("pack")},
 		},
 	})
 	register(&Property{
@@ -127,6 +128,7 @@ func init() {
 			{Name: "panics", Run: c14Panics},
 			{Name: "aminoname", Run: c14AminoName},
 			{Name: "framepanics", Run: c14FramePanics},
+			{Name: "parallel", Race: true, Run: sequtilParallel("translate")},
 		},
 	})
 }
